@@ -207,6 +207,48 @@ class Report:
             self.samples.append(obj)
 
 
+class SubReport:
+    """the rules of another property run as part of this one: rule names are prefixed `<tag>/`"""
+
+    def __init__(self, rep, tag):
+        self.rep = rep
+        self.tag = tag
+        self.tier = rep.tier
+        self.prop = rep.prop
+
+    def ok(self, rule, *a, **k):
+        self.rep.ok(self.tag + '/' + rule, *a, **k)
+
+    def violation(self, rule, *a, **k):
+        self.rep.violation(self.tag + '/' + rule, *a, **k)
+
+    def undecided(self, rule, *a, **k):
+        self.rep.undecided(self.tag + '/' + rule, *a, **k)
+
+    def floor(self, name, got, minimum):
+        self.rep.floor(self.tag + '/' + name, got, minimum)
+
+    def fn(self, f):
+        self.rep.fn(f)
+
+    def assume(self, text):
+        self.rep.assume(text)
+
+    def sample(self, obj):
+        self.rep.sample(obj)
+
+    def __getattr__(self, name):
+        return getattr(self.rep, name)
+
+
+def run_included(ctx, rep, modules):
+    """run the rule sets of the listed property modules under `rep` (umbrella properties)"""
+    import importlib
+    for name in modules:
+        mod = importlib.import_module(name)
+        mod.run(ctx, SubReport(rep, name.upper()))
+
+
 class Ctx:
     def __init__(self, prop, tier):
         self.prop = prop
